@@ -12,6 +12,7 @@ For every phase-counter value `acc < 2^24` (`phase = acc / 2^24`):
 * `shapes_in_range`: all five shapes lie in [−1, +1];
 * `reachable_acc_lt`: every history of tick / set_frequency / set_phase / reset keeps `acc < 2^24`.
 `get` is a function of the state alone and returns no state: reading one shape cannot disturb another.
+The closeness of the sine to `sin(2π·phase)` is proved in `C10Sine.lean` (`C10.Sine.sine_close`).
 -/
 namespace C10
 open F32
